@@ -10,20 +10,20 @@ hooks = [l.split()[0] for l in hook_commits if ' verif hook:' in l]
 TECH = "contracts on the real functions + weakest-precondition style VC generation over go/ssa (govc) + SMT (z3 5.1, z3 4.8, cvc5)"
 
 claims = {
- "C01": ("mechanism obligations of the commit protocol proved per function: ghost I/O protocol of the writer front end (data/meta pages -> sync -> exactly one header write to the inactive slot -> sync; no header write on error exits; checksum finalised over the final field values; tryCommitChangesToFile/syncNewMeta/prepareMetaBuffer), publication only to the written slot, sticky writer error (no I/O while in error state, cleared only by a reset sync), truncate lower bound, header validation, recovery picks the valid header with the newer txid in wrap-around order, deferred free of committed pages",
-         "Not decided: the crash-point x lost-write quantifier itself (no mechanised composition lemma), shadow-paging targets of doFlush, serialisation callbacks (fileCommitSerialize abstract: assumed to schedule data-area pages only). FNV collision on torn headers is assumed away; file contents are an uninterpreted function of the offset (slotAt); Schedule/Sync are monitor code whose contract defines the ghost protocol."),
- "C05": ("position codec proved inverse for every page size 2^10..2^31 and every valid position, offset 0 <=> nil position, offsets of valid positions >= 2 pages; Offset/SplitOffset of File and of the standalone delegate proved against the Delegate interface contract; id order helpers",
-         "Framing only. End-to-end FIFO over the linked page chain, header-fit and spill stepping agreement are not decided yet."),
+ "C01": ("mechanism obligations of the commit protocol proved per function: ghost I/O protocol of the writer front end (data/meta pages -> sync -> exactly one header write to the inactive slot -> sync; no header write on error exits; header = active header with root, txid+1, allocator/WAL fields and a checksum finalised over the final values; tryCommitChangesToFile/syncNewMeta/prepareMetaBuffer); shadow-paging targets of Page.doFlush (a committed page is never written in place: first overwrite goes to a freshly allocated overwrite page, a redirected page goes back to its own unreferenced id and its overwrite page is freed deferred); publication only to the written slot; writer back end: barrier (nextCommand hands a sync out only together with every write scheduled before it, FIFO batches, verified under the monitor rule), sticky error (no I/O while in error state, cleared only by a reset sync, recorded on every message's sync handle); truncate lower bound; header validation; recovery picks the valid header with the newer txid in wrap-around order; deferred free of committed pages",
+         'Not decided: the crash-point x lost-write quantifier itself (no mechanised composition lemma), flushPages (the loop over the page cache) and the serialisation callbacks (fileCommitSerialize abstract: assumed to schedule data-area pages only), allocWALID (abstract: returns 0 or a page >= 2 different from the original). FNV collision on torn headers is assumed away; file contents are an uninterpreted function of the offset (slotAt); Schedule/Sync are monitor code whose contract defines the ghost protocol. Known findings F6 and F11 are recorded (separate obligations, not counted).'),
+ "C05": ('position codec proved inverse for every page size 2^10..2^31 and every valid position, offset 0 <=> nil position, offsets of valid positions >= 2 pages; Offset/SplitOffset of File and of the standalone delegate against the Delegate interface contract; reader stepping: Reader.readInto delivers exactly min(rest of event, buffer) bytes, a partial read stays inside the event and never advances the page, a complete read moves to the next event id; Reader.Read returns that count; id order helpers',
+         'End-to-end FIFO over the linked page chain is not decided: the cursor operations (txCursor.Read/Skip/AdvancePage/ReadEventHeader) and the write buffer (buffer.Append/ReserveHdr/CommitEvent) are abstract, so header-fit and spill stepping agreement between writer and reader are assumed, not proved. The caller-side type-safety precondition apart(r, b) is stated explicitly.'),
  "C08": ("error-path contracts: every failing vfs call in mmap/munmap/mmapUpdate/truncate/readMeta yields a non-nil error, no panic, and the old mapping or a fresh valid one is installed (F4, F10 fixed); writer back end: after a failing WriteAt/Sync no further I/O is issued until a reset sync was answered, and that sync clears the error (writeAt, execSync, Run); commit error path releases the commit locks and publishes nothing (F6 recorded)",
          "Fault sequences/bursts over histories are the (unmechanised) induction over these contracts. vfs.File behaviour is an interface contract (any error at any time); a failing MUnmap or re-mmap after unmap cannot be recovered and is exempted in the contract."),
- "C09": ("lock balance via ghost tokens on the lock: beginTx acquires exactly one of shared/reserved, Tx.close / Rollback / Close release exactly it on every exit and never twice, withInitTx leaves all four lock levels and the pending flag as found for every behaviour of its callback",
-         "Deadlock freedom and data-race freedom over schedules are outside this family. lock.go bodies are abstract here (token semantics defined by contract; sync.Mutex/Cond trusted)."),
+ "C09": ('lock balance via ghost tokens on the lock: beginTx acquires exactly one of shared/reserved, Tx.close / Rollback / Close / Commit release exactly it on every exit and never twice, withInitTx and initTxMaxSize leave all four lock levels and the pending flag as found for every behaviour of the callback, tryCommitChanges releases pending and exclusive on every exit, File.Close takes and releases all levels; pendingLock.Lock/Unlock verified: the flag is set/cleared and Unlock wakes every blocked reader (Broadcast)',
+         'Deadlock freedom and data-race freedom over schedules are outside this family. shared/reserved/exclusive lock bodies are abstract (token semantics defined by contract; sync.Mutex/Cond trusted).'),
  "C10": ("free-list entry codec: encodeRegion/decodeRegion/regionEncodingSize meet word-level specs and the lemma decode(encode(r)) == r holds for every id < 2^55 and count >= 1 incl. the 255 overflow form",
          "Linked meta-page list walk, page-count prediction and header-field round trip not yet under contract. go-bin cells are modelled as opaque little-endian integers."),
- "C11": ("Avail formula of the data allocator (free list + room below the limit, noLimit iff unbounded), truncate lower bound, mmap size covers file and limit",
-         "Per-operation count deltas of the allocator and FileStats formulas not yet under contract; leak freedom over histories is their induction."),
- "C14": ("open-time maintenance transaction releases every lock level and clears the pending flag for every callback (so readers and writers can begin afterwards); initTxMaxSize schedules exactly one header write, to the inactive slot, whose fields equal the active header except maxSize (rounded down to whole pages), txid+1 and the recomputed checksum, and switches the active slot only on success; Avail formula gives the grow delta",
-         "Shrink release (initTxReleaseRegions/releaseOverflowPages), the preallocation truncate of doGrowFile and what a later plain open reports are not under contract yet."),
+ "C11": ('Avail formula of the data allocator (free list + room below the limit, noLimit iff unbounded), statistics reported at open (MetaArea, MetaAllocated, DataAllocated as functions of header and allocator), allocator.Rollback gives back exactly the regions moved to the meta area (bounded), truncate lower bound, mmap size covers file and limit',
+         'Per-operation count deltas of allocation/commit and the onCommit statistics are not under contract; leak freedom over histories is their induction.'),
+ "C14": ('open-time maintenance transaction releases every lock level and clears the pending flag for every callback; initTxMaxSize schedules exactly one header write, to the inactive slot, whose fields equal the active header except maxSize (rounded down to whole pages), txid+1 and the recomputed checksum, and switches the active slot only on success; commit-time free lists are copies (a failing release transaction cannot have edited the live list through mergeRegionLists); Avail formula gives the grow delta',
+         'Shrink release (initTxReleaseRegions/releaseOverflowPages, fileCommitAlloc frame), the preallocation truncate of doGrowFile and what a later plain open reports are not under contract yet.'),
  "C15": ("queue: Reader.Available/Begin/Read on a closed reader => ReaderClosed, without transaction => InactiveTx, second Begin => UnexpectedActiveTx, no transaction begun; Writer.Write/Next/Flush on a closed writer => WriterClosed; Queue.Close leaves closed reader and acker objects behind so that ACK(n>0) on a closed queue => QueueClosed without beginning a transaction and Reader() hands out the closed reader (F12 fixed); all of them change nothing. Page methods (SetBytes/Load/MarkDirty/Free/Flush/Bytes) x page and transaction state. Method x life-cycle matrix of Tx proved for all states: Commit/Rollback/Close/Page/RootPage/Alloc/AllocN/CheckpointWAL/PageSize/getPage/beginTx: finished => error kind TxFinished (or TxReadOnly for writes), read-only => TxReadOnly, out-of-range => InvalidPageID, freed => InvalidOp, no panic, and preserved(): no pre-existing location changes",
          "The type invariants wfTx / wfPage / wfReader / wfWriter / wfQueue are assumed at entry of every public method. Reader.Next, Reader.Done and Queue.Writer are not under contract; writing through a Writer obtained after Queue.Close is not covered (the property lists reading and ACKing)."),
  "C16": ("Validate <=> magic, version and checksum over all 12 protected fields; slot selection table of readValidMeta incl. signed wrap-around compare; never returns a header that does not validate; no panic under 'intact headers have distinct txids'; an intact slot 1 must be found when only slot 0 is damaged (fails for damage in the page size field of slot 0: known finding F11, replayed)",
@@ -39,20 +39,20 @@ na = {
 claims.update({
  "C02": ("guarded-by obligations: every store to File.metaActive / File.mapped / File.meta / waLog.mapping / waLog.metaPages (directly or through a callee's modifies clause) in the functions under contract happens with the exclusive, pending and reserved ghost tokens held, or before the File is published by Open; a failing commit publishes nothing (except the recorded F6 case); newTx takes private copies of root and data end marker; getPage resolves the overwrite page through the committed mapping",
          "The schedule quantifier is discharged by rely on the lock contracts (lock.go bodies abstract, sync primitives trusted); memory-model level races are not analysed. Stores in functions that are not under contract are not seen."),
- "C03": ("page write buffer state machine of Page (SetBytes/Load/MarkDirty/Bytes/Free/Flush preconditions and buffer invariant), getPage resolution through the overwrite mapping, WAL release chain (freeWALID -> deferred free of the overwrite page + mapping entry released), writer batch keeps per-page schedule order (stable sort; F5 fixed), checkpoint copies home and releases every clean redirected page (bounded: mappings with at most 2 entries)",
-         "Byte-level equality of buffer contents after partial writes, createMappingUpdate/fileCommitPrepare and flushPages are not under contract yet; equality with a sequential model over whole histories is their (unmechanised) induction."),
- "C04": ("set-view contracts (ghost PageSet of each free list): Free of a committed page only records it (nothing becomes allocatable before commit), only pages allocated by the same transaction are recycled at once, nothing else becomes free; rollback returns exactly the pages taken from the free list below the restored end marker and leaves no free page at or beyond it (F9 fixed)",
-         "Allocation paths (AllocRegionsWith, AllocContinuousRegion, meta-area growth), commit-time merge and the region-slice surgery functions are abstract: the link between the ghost set and the region slice is assumed there. The end-marker shrink inside Free edits the slice directly and is not tracked by the ghost view."),
- "C07": ("allocArea.rollback restores the end marker and the free set exactly (unbounded, with the map-iteration visited-set model), dataAllocator.Free defers frees of committed pages, every error exit of tryCommitChanges leaves the published state untouched and releases the commit locks; known finding F6 (late truncate/mmap failure after publication) is recorded",
-         "allocator.Rollback's move-back of meta-area growth, rollbackChanges' truncate and the reopen half of the statement are not under contract yet."),
+ "C03": ("page write buffer state machine of Page (SetBytes/Load/MarkDirty/Bytes/Free/Flush preconditions and buffer invariant), getPage resolution through the overwrite mapping, where a flushed page is written (Page.doFlush), the overwrite mapping a commit installs (createMappingUpdate, unbounded: new redirects win, old ones are kept unless released; fileCommitPrepare: checkpoint keeps only this transaction's redirects), WAL release chain (freeWALID -> deferred free of the overwrite page + mapping entry released), writer hands writes out in schedule order and keeps per-page order inside a batch (nextCommand FIFO, stable sort; F5 fixed), checkpoint copies home and releases every clean redirected page (bounded: mappings with at most 1 entry in the quick tier, 2 in the thorough tier)",
+         "Byte-level equality of buffer contents after partial writes, flushPages and waLog.Commit's use at commit time beyond the guarded-by rule are not under contract; equality with a sequential model over whole histories is their (unmechanised) induction."),
+ "C04": ('set-view contracts (ghost PageSet of each free list): Free of a committed page only records it (nothing becomes allocatable before commit), only pages allocated by the same transaction are recycled at once, nothing else becomes free; rollback (area and whole allocator) returns exactly the pages taken from the free list below the restored end marker and leaves no free page at or beyond it (F9 fixed); commit-time merged lists are new arrays',
+         'Allocation paths (AllocRegionsWith, AllocContinuousRegion, meta-area growth), commit-time merge and the region-slice surgery functions are abstract: the link between the ghost set and the region slice is assumed there. The end-marker shrink inside Free edits the slice directly and is not tracked by the ghost view.'),
+ "C07": ('allocArea.rollback restores the end marker and the free set exactly (unbounded, with the map-iteration visited-set model); allocator.Rollback gives every region moved into the meta area back (metaTotal), restores both end markers and leaves no free page beyond them (bounded: at most 2 moved regions); dataAllocator.Free defers frees of committed pages; mergeRegionLists never returns or writes one of its inputs (commit-time lists are copies); every error exit of tryCommitChanges leaves the published state untouched and releases the commit locks; known finding F6 (late truncate/mmap failure after publication) is recorded',
+         "rollbackChanges' truncate, the reopen half of the statement and fileCommitAlloc's frame (abstract) are not under contract."),
 })
 claims.update({
  "C18": ("release on all exits: Open returns with the path lock and the file handle released on every error exit (options invalid, open fails, lock fails, initialisation fails incl. the max-size branch that already released both through File.Close) and with both held on success; openWith either leaves lock and handle alone or releases both; File.Close releases both on every exit; osfs Lock/Unlock/doLock/doUnlock: locking twice is refused without touching the lock, a failed lock keeps nothing, unlock clears the handle only on success and releases whatever is held (representation invariant lockCoupled preserved)",
          "Mutual exclusion between processes is the semantics of flock(2) behind github.com/gofrs/flock (assumed extern contracts; a failing OS-level unlock is outside the fault model). newFile (go statement), initNewFile, growFile/shrinkFile are abstract in openWith; three clauses of openWith about the representation of the concrete OS file are assumed (listed in evidence)."),
 })
 claims.update({
- "C06": ("transaction bracket of an ACK (acker.cleanup): at most one write transaction, begun after the plan was computed, closed on every exit; every page free and the head/read/inuse header update happen on that transaction and the root page is marked dirty before its single Commit (call-site obligation); success means that Commit returned nil, the ACKed callback and the totals are updated only then and with exactly n; on every error exit nothing is reported. Flush side: flushBuffer reports exactly the flushed event count through the Flushed callback, only after a successful flush, and keeps the count for the retry after a failed one",
-         "Not decided: the crash quantifier (delegated to C01: a flush/ACK is one txfile commit), the flush transaction itself (doFlush: page allocation, linking, unassign on failure are abstract), the ACK plan (initACK/collectFreePages/findNewStartPositions abstract: which pages are kept, where reading resumes), re-initialisation from the persisted header. txfile's API is used through its contracts; the Page invariant of pages handed out by Tx.Page is an assumed postcondition."),
+ "C06": ('ACK (acker.cleanup): at most one write transaction, closed on every exit; every page free and the head/read/inuse update happen on it and the root page is dirty before its single Commit; success means Commit returned nil; callback and totals only then and with exactly n; nothing reported on error. Which pages an ACK collects (collectFreePages): never the page the writer appends to, never a page that still holds un-ACKed events, one page per step; where reading resumes (findNewStartPositions): head = first event of the kept page, read = position where skipping ended with id = first un-ACKed id. Flush (Writer.doFlush): one write transaction closed on every exit, header update (updateRootHdr: tail.id = next event id, tail behind the last complete event, inuse += allocated, head set only for an empty queue) and root MarkDirty before the single Commit, buffer released only after the commit, page ids un-assigned on every failure after linking and kept on success; flushBuffer callback accounting',
+         "Not decided: the crash quantifier (delegated to C01: a flush/ACK is one txfile commit), the in-memory page list walks of a flush (allocatePages/linkPages/flushPages/buffer.Reset abstract; their effect on the root page object and the buffer offsets is a rely clause), initACK's composition, re-initialisation from the persisted header. txfile's API is used through its contracts; the Page invariant of pages handed out by Tx.Page is an assumed postcondition."),
 })
 pending = {
 }
